@@ -1,6 +1,25 @@
 #!/bin/sh
 # usage: refactor_prompt.sh C01 r  -> prompt for an independent "harmless refactor" sub-agent
 P=$1; S=${2:-r}; D=/tmp/refac-$P-$S
+ROUNDNOTE=""
+if [ "$S" != "r" ]; then ROUNDNOTE="
+Other maintainers have already done the most common clean-ups in these files (extracting a helper from
+a long function, renaming, if/else <-> switch, early returns, hoisting a local, moving code to another
+file). Choose DIFFERENT kinds of behaviour-preserving change this time, for instance: introduce a small
+unexported type (struct or named func type) to carry values that are passed around together, or replace
+it by plain parameters; turn a method into a function taking the receiver's fields it needs (or the
+reverse); replace a closure by a named method or a method value; make a table-driven version of repeated
+statements (slice of structs / map of funcs iterated in a fixed order) or unroll such a table; thread a
+value through a struct field set in the constructor instead of recomputing it, when it is immutable;
+use generics or a small interface to merge two near-identical functions; replace a bool parameter by
+two functions; use errors.Is / errors.As / a sentinel where an == comparison on the same sentinel was
+used; wrap a lock/unlock pair in a withLock(func()) helper without changing what runs under the lock;
+replace manual defer ordering by a single cleanup func; convert a goroutine + WaitGroup into the same
+thing written with a helper; change a for-range over indexes to a range over values (or back); replace
+append-in-loop by slices.Collect/slices.Grow-style preallocation; use min/max/clamp builtins; replace
+fmt.Errorf wrapping by the project errcode wrapper ONLY where the resulting error value compares equal
+for every caller test (errors.Is/errcode.Is) - when in doubt leave error values alone.
+"; fi
 cat <<TXT
 You are a maintainer of a Go code base doing routine clean-up work. A private git worktree of the
 repository berty/weshnet (Go module berty.tech/weshnet/v2) has been created for you at $D .
@@ -19,6 +38,7 @@ for l in open('/verif/properties.jsonl'):
 PY
 )
 
+$ROUNDNOTE
 Your job: produce FOUR different, independent, realistic BEHAVIOUR-PRESERVING changes to the
 NON-TEST source of weshnet in the files this property is anchored in (and their direct helpers) —
 the kind of change that lands in a code base every week and that must not alter what the code does:
